@@ -71,6 +71,11 @@ func (vc *VC) instr1(in ssa.Instruction, h *Heap) {
 		}
 		o := vc.alloc(h, vc.curR, dyn, et)
 		vc.vals[x] = []string{"(mkptr " + o + " 0 0)"}
+		if types.TypeString(et, nil) == "strings.Builder" {
+			if gname, g, ok := vc.ghostHeap(h, "$sb"); ok {
+				h.M["G_$sb"] = vc.define("G__sb", g.SMTSort(), sto(gname, o, "str_empty"))
+			}
+		}
 	case *ssa.FieldAddr:
 		base := ptrAddr(vc.val1(x.X))
 		st := x.X.Type().Underlying().(*types.Pointer).Elem().Underlying().(*types.Struct)
